@@ -32,6 +32,7 @@
 //@rule HOOK :: #\[cfg\(asynchronix_verif\)\]\s*crate::verif_hooks::pause_point\([^)]*\); ::  :: R19 verification-only pause points are no-ops without an installed callback
 //@rule LOCK2 :: let scheduler_queue = self\.scheduler_queue\.lock\(\)\.unwrap\(\); :: lock_queue(&mut self.scheduler_queue, &self.time); :: R1b
 //@rule GUARDPEEK :: \bscheduler_queue\.peek\(\) :: self.scheduler_queue.peek() :: R1b
+//@rule ARMBRACE2 :: Ok\(Some\(t\)\) if t == target_time => return Ok\(\(\)\), :: Ok(Some(t)) if t == target_time => { return Ok(()) }, :: R17 braces around a match-arm expression so that a proof block can precede it
 //@rule IMPLDL :: deadline: impl Deadline :: deadline: impl Deadline :: R14 (kept as is)
 //@pyrule GUARD :: inline_guard(scheduler_queue ;; self.scheduler_queue ;; lock_queue(&mut self.scheduler_queue, &self.time); ;; unlock_queue(&mut self.scheduler_queue, &self.time);) :: R1b/R13 the guard variable is the locked queue itself; lock()/drop() become stub calls (functional pass: no interference; monitor pass: havoc)
 //@pyrule PUBFIELDS :: pub_fields() :: R7
@@ -766,7 +767,7 @@ impl Simulation {
     }
 //@end
 
-//@item src=nexosim/src/simulation.rs kind=fn name=step_until_unchecked within=`impl Simulation` rules=HOOK,GUARD,MAPUNIT,RET
+//@item src=nexosim/src/simulation.rs kind=fn name=step_until_unchecked within=`impl Simulation` rules=HOOK,GUARD,MAPUNIT,ARMBRACE2,RET
     fn step_until_unchecked(&mut self, target_time: MonotonicTime) -> (res: Result<(), ExecutionError>)
         //@[
         requires
@@ -784,15 +785,27 @@ impl Simulation {
             res is Ok ==> final(self).is_terminated == old(self).is_terminated,                 //@ C11 #ok-keeps-state
             // C18: the final jump to the target synchronises on the target
             res is Ok ==> final(self).clock.syncs().last() == target_time.t,                    //@ C18 #sync-on-target
+            // C18: every new time passed through is synchronised exactly once, in increasing order
+            res is Ok ==> sync_trace_ok(*old(self), *final(self), target_time.t),               //@ C18 #each-new-time-synchronised-exactly-once
             // C11
             old(self).is_terminated ==> (res matches Err(ExecutionError::Terminated))            //@ C11 #terminated-no-effect
                 && terminated_noop(*old(self), *final(self)),                                   //@ C11 #terminated-no-effect
             res matches Err(e) ==> final(self).is_terminated && is_fatal(e),                     //@ C11 #error-terminates
         //@]
     {
+        //@[
+        let ghost mut app: Seq<u64> = Seq::empty();
+        let ghost syncs0 = self.clock.syncs();
+        let ghost time0 = self.time.val();
+        proof { assert(syncs0 + app == syncs0); }
+        //@]
         loop
             //@[
             invariant
+                syncs0 == old(self).clock.syncs(), time0 == old(self).time.val(),
+                self.clock.syncs() == syncs0 + app, strictly_increasing(app),                       //@ C18 #each-new-time-synchronised-exactly-once
+                forall|i: int| 0 <= i < app.len() ==> time0 < #[trigger] app[i] && app[i] <= self.time.val(),            //@ C18 #each-new-time-synchronised-exactly-once
+                app.len() > 0 ==> self.time.val() < target_time.t,                                  //@ C18 #each-new-time-synchronised-exactly-once
                 sorted(self.scheduler_queue.view()),
                 all_later(self.scheduler_queue.view(), self.time.val()),                            //@ C01
                 no_zero_period(self.scheduler_queue.view()),                                        //@ C08
@@ -805,9 +818,21 @@ impl Simulation {
             decreases target_time.t - self.time.val(),                                          //@ C08 #step-until-terminates
             //@]
         {
+            let ghost before = *self;   //@
             match self.step_to_next_bounded(target_time) {
                 // The target time was reached exactly.
-                Ok(Some(t)) if t == target_time => return Ok(()),
+                Ok(Some(t)) if t == target_time => {
+                    //@[
+                    proof {
+                        assert(stepped_sync(before, *self));
+                        let app2 = app.push(t.t);
+                        assert(syncs0 + app2 =~= (syncs0 + app).push(t.t));
+                        assert(strictly_increasing(app2));
+                        assert(sync_trace_ok(*old(self), *self, target_time.t)) by { assert(strictly_increasing(app2)); }
+                    }
+                    //@]
+                    return Ok(())
+                },
                 // No actions are scheduled before or at the target time.
                 Ok(None) => {
                     // Update the simulation time. The scheduler queue must be
@@ -836,11 +861,28 @@ impl Simulation {
                         continue;
                     }
                     self.clock.synchronize(target_time);
+                    //@[
+                    proof {
+                        let app2 = app.push(target_time.t);
+                        assert(syncs0 + app2 =~= (syncs0 + app).push(target_time.t));
+                        assert(strictly_increasing(app2));
+                        assert(sync_trace_ok(*old(self), *self, target_time.t)) by { assert(strictly_increasing(app2)); }
+                    }
+                    //@]
                     return Ok(());
                 }
                 Err(e) => return Err(e),
                 // The target time was not reached yet.
-                _ => {}
+                _ => {
+                    //@[
+                    proof {
+                        assert(stepped_sync(before, *self));
+                        let tn = self.time.val();
+                        assert(syncs0 + app.push(tn) =~= (syncs0 + app).push(tn));
+                        app = app.push(tn);
+                    }
+                    //@]
+                }
             }
         }
     }
